@@ -23,9 +23,45 @@ func checkC20(c *Ctx) {
 	const pkg = "pkg/client/assets"
 	fns := c.funcsOfPkgs(pkg)
 
+	checkC20Reported(c, fns)
 	r.Rule("C20.1", "files are only created under a fresh temporary name; the final name is only a Rename destination", 1)
 	creators := map[string]int{"os.WriteFile": 0, "os.Create": 0, "os.OpenFile": 0, "io/ioutil.WriteFile": 0, "os.CreateTemp": 0}
 	nCreate, nRename := 0, 0
+	// namesOf: the file name a call receives; a name that is a parameter of an (unexported) helper is replaced by
+	// what the helper's call sites in this package pass
+	var namesOf func(f *ssa.Function, v ssa.Value, depth int) []string
+	namesOf = func(f *ssa.Function, v ssa.Value, depth int) []string {
+		prm, ok := v.(*ssa.Parameter)
+		if !ok || depth > 2 {
+			return []string{pathOf(v)}
+		}
+		idx := -1
+		for i, q := range f.Params {
+			if q == prm {
+				idx = i
+			}
+		}
+		var out []string
+		for _, g := range fns {
+			eachInstr(g, func(in ssa.Instruction) {
+				if ci, ok := in.(ssa.CallInstruction); ok && ci.Common().StaticCallee() == f && idx >= 0 && idx < len(ci.Common().Args) {
+					out = append(out, namesOf(g, ci.Common().Args[idx], depth+1)...)
+				}
+			})
+		}
+		if len(out) == 0 {
+			return []string{pathOf(v)}
+		}
+		return out
+	}
+	allFresh := func(names []string) bool {
+		for _, p := range names {
+			if !strings.Contains(p, "getRandString(") {
+				return false
+			}
+		}
+		return len(names) > 0
+	}
 	for _, f := range fns {
 		eachInstr(f, func(in ssa.Instruction) {
 			call, ok := in.(*ssa.Call)
@@ -41,8 +77,9 @@ func checkC20(c *Ctx) {
 					}
 				}
 				nCreate++
-				p := pathOf(call.Call.Args[0])
-				fresh := strings.Contains(p, "getRandString(") || n == "os.CreateTemp"
+				names := namesOf(f, call.Call.Args[0], 0)
+				p := strings.Join(names, " | ")
+				fresh := allFresh(names) || n == "os.CreateTemp"
 				r.Check(fresh, "C20.1", fnName(f)+": "+n+" writes a freshly named temporary file", call.Pos(), fnName(f), firstN(p, 120),
 					"a file is created/truncated under a name without a fresh random component ("+firstN(p, 80)+"): a crash or write failure in the middle leaves the ClientConf truncated or mixed, or two writers share a temporary file")
 			}
@@ -50,8 +87,9 @@ func checkC20(c *Ctx) {
 				nRename++
 			}
 			if n == "os.Remove" || n == "os.RemoveAll" || n == "os.Truncate" {
-				p := pathOf(call.Call.Args[0])
-				r.Check(strings.Contains(p, "getRandString("), "C20.1", fnName(f)+": "+n+" only on temporary files", call.Pos(), fnName(f), firstN(p, 100),
+				names := namesOf(f, call.Call.Args[0], 0)
+				p := strings.Join(names, " | ")
+				r.Check(allFresh(names), "C20.1", fnName(f)+": "+n+" only on temporary files", call.Pos(), fnName(f), firstN(p, 100),
 					n+" is applied to "+firstN(p, 80)+", a name without the fresh temporary component: if this is the ClientConf's final name there is a window (and every later failure) in which no complete configuration file exists on disk")
 			}
 		})
@@ -65,6 +103,20 @@ func checkC20(c *Ctx) {
 		var wr, rn, ms *ssa.Call
 		eachInstr(f, func(in ssa.Instruction) {
 			if call, ok := in.(*ssa.Call); ok {
+				if cal := call.Call.StaticCallee(); cal != nil && cal.Blocks != nil && isRepoPath(fnPkgPath(cal)) && wr == nil {
+					// a helper that creates the file named by its first parameter and reports one error
+					creates := false
+					eachInstr(cal, func(in2 ssa.Instruction) {
+						if c2, ok := in2.(*ssa.Call); ok {
+							if _, isC := creators[calleeName(&c2.Call)]; isC && len(cal.Params) > 0 && c2.Call.Args[0] == ssa.Value(cal.Params[0]) {
+								creates = true
+							}
+						}
+					})
+					if creates && cal.Signature.Results().Len() == 1 {
+						wr = call
+					}
+				}
 				switch calleeName(&call.Call) {
 				case "os.WriteFile", "io/ioutil.WriteFile":
 					wr = call
@@ -281,4 +333,107 @@ func errAtoms(call *ssa.Call, isNil bool) []Atom {
 		out = append(out, Atom{"(" + orderEq(n, "nil") + ")", isNil})
 	}
 	return out
+}
+
+// checkC20Reported (C20.5): on the save path, a failed marshal / write / sync is reported: from the failing edge of
+// such a call no return is reachable whose error result neither derives from that error nor is a freshly built
+// non-nil error. (An error that is tested and then overwritten - `_, err = f.Write(b); ...; err = f.Close()` -
+// turns a short write into success, and the truncated temporary file is renamed over the ClientConf.)
+func checkC20Reported(c *Ctx, fns []*ssa.Function) {
+	r := c.R
+	r.Rule("C20.5", "a failed marshal / write / sync on the save path is reported to the caller", 2)
+	root := c.P.Func(repoMod+"/pkg/client/assets", "assets", "saveClientConf")
+	if root == nil || root.Blocks == nil {
+		r.Unk("C20.5", "saveClientConf", token.NoPos, "", "anchor not found")
+		return
+	}
+	seen := map[*ssa.Function]bool{}
+	var order []*ssa.Function
+	var visit func(f *ssa.Function)
+	visit = func(f *ssa.Function) {
+		if f == nil || seen[f] || f.Blocks == nil || !isRepoPath(fnPkgPath(f)) {
+			return
+		}
+		seen[f] = true
+		order = append(order, f)
+		eachInstr(f, func(in ssa.Instruction) {
+			if ci, ok := in.(ssa.CallInstruction); ok {
+				visit(ci.Common().StaticCallee())
+			}
+		})
+	}
+	visit(root)
+	for _, f := range order {
+		if f.Signature.Results().Len() == 0 || !isErrorType(f.Signature.Results().At(f.Signature.Results().Len()-1).Type()) {
+			continue
+		}
+		eidx := f.Signature.Results().Len() - 1
+		eachInstr(f, func(in ssa.Instruction) {
+			call, ok := in.(*ssa.Call)
+			if !ok {
+				return
+			}
+			n := calleeName(&call.Call)
+			switch n {
+			case "os.WriteFile", "io/ioutil.WriteFile", "(*os.File).Write", "(*os.File).WriteString", "(*os.File).Sync", "(*os.File).WriteAt", "google.golang.org/protobuf/proto.Marshal", "(*bufio.Writer).Flush", "(*bufio.Writer).Write":
+			default:
+				return
+			}
+			// the error result of the call
+			var ev ssa.Value
+			if isErrorType(call.Type()) {
+				ev = call
+			} else {
+				for _, ex := range extractOf(call, call.Call.Signature().Results().Len()-1) {
+					ev = ex
+				}
+			}
+			if ev == nil {
+				r.Bad("C20.5", fnName(f)+": error of "+shortName(n)+" is discarded", in.Pos(), fnName(f), "the error result of "+shortName(n)+" is not even read: a failed write is reported as success and the temporary file replaces the ClientConf")
+				return
+			}
+			failEdges := edgesEstablishing(f, atomMatcher(Atom{"(" + orderEq(pathOf(ev), "nil") + ")", false}))
+			if len(failEdges) == 0 {
+				// returned directly?
+				direct := false
+				eachInstr(f, func(in2 ssa.Instruction) {
+					if ret, ok := in2.(*ssa.Return); ok && eidx < len(ret.Results) && dependsOn(returnedValue(ret, eidx, nil), ev) {
+						direct = true
+					}
+				})
+				r.Check(direct, "C20.5", fnName(f)+": error of "+shortName(n)+" is tested or returned", in.Pos(), fnName(f), "returned directly", "the error of "+shortName(n)+" is neither tested nor returned")
+				return
+			}
+			bad := false
+			var w []int
+			for e := range failEdges {
+				succ := f.Blocks[e.from].Succs[e.slot]
+				hit, ww := reachAt(f, succ, func(in2 ssa.Instruction) bool {
+					ret, ok := in2.(*ssa.Return)
+					if !ok || eidx >= len(ret.Results) || in2.Block().Comment == "recover" {
+						return false
+					}
+					rv := returnedValue(ret, eidx, nil)
+					if dependsOn(rv, ev) {
+						return false
+					}
+					if cl, ok := stripConv(rv).(*ssa.Call); ok {
+						if cn := calleeName(&cl.Call); cn == "fmt.Errorf" || cn == "errors.New" {
+							return false
+						}
+					}
+					return true
+				}, nil, nil)
+				if hit {
+					bad, w = true, ww
+				}
+			}
+			if bad {
+				r.Bad("C20.5", fnName(f)+": a failed "+shortName(n)+" can be reported as success", in.Pos(), fnName(f),
+					"after "+shortName(n)+" failed there is a path to a return whose error does not derive from that failure (it was overwritten, e.g. by the result of Close): the caller renames the incomplete temporary file over the ClientConf and keeps the new configuration in memory", r.blockPath(f, w)...)
+			} else {
+				r.OK("C20.5", fnName(f)+": a failed "+shortName(n)+" is reported", in.Pos(), "every return reachable from its failing edge carries that error")
+			}
+		})
+	}
 }
